@@ -72,7 +72,26 @@ func c04cprefix(m *Map[int, int], keys []int) c04state {
 			m.Load(keys[0])
 		}
 	}
-	switch vChoose("prefix", 7) {
+	if n := vParam("PFX"); n > 0 {
+		// generic mode: every sequential history of n calls (Store / Delete / Load of either key,
+		// or a Range) - all internal layouts reachable in n steps, not only the canned ones below
+		for i := 0; i < n; i++ {
+			op := vChoose("pfx.op", 7)
+			switch {
+			case op == 6:
+				m.Range(func(int, int) bool { return true })
+			case op%3 == 0:
+				set(op / 3)
+			case op%3 == 1:
+				m.Delete(keys[op/3])
+				st.has[op/3] = false
+			default:
+				m.Load(keys[op/3])
+			}
+		}
+		return st
+	}
+	switch vChoose("prefix", 9) {
 	case 0:
 	case 6: // promoted by misses (missLocked) rather than by Range
 		set(0)
@@ -100,6 +119,22 @@ func c04cprefix(m *Map[int, int], keys []int) c04state {
 		set(0)
 		promote()
 		set(1)
+	case 7: // x deleted after the dirty map was rebuilt (a nil entry shared by both maps), one miss short of a promotion
+		set(0)
+		promote()
+		set(1)
+		m.Delete(keys[0])
+		st.has[0] = false
+		m.Load(keys[1])
+		vCover("conc prefix: nil entry in both maps, promotion imminent")
+	case 8: // both keys deleted through the read map after a promotion, then x stored again (dirty rebuilt without the expunged y)
+		set(0)
+		set(1)
+		promote()
+		m.Delete(keys[0])
+		m.Delete(keys[1])
+		st.has[0], st.has[1] = false, false
+		set(0)
 	}
 	return st
 }
